@@ -129,12 +129,13 @@ func paramDecls(fd *ast.FuncDecl, x *file) (string, []string) {
 }
 
 // depFoldPaged: MakeTracesDependancyGraph with a paging loop `for { … acc = append(acc, <resp>.Hits.Spans...) … }`
+// or, since the records are decoded one by one (repair c12-7), `for { … acc = append(acc, <pageSpans>...) … }`
 // (the shape of ProcessRedTracesIngest): the loop is replaced by "all spans are <spans>", every other statement is
 // copied.  Returns "" when the function has no such loop (the older one-request shape, handled by depFold itself).
 func depFoldPaged(x *file, fd *ast.FuncDecl) string {
 	L := fd.Body.List
 	loop, acc := -1, ""
-	re := regexp.MustCompile(`^(\w+)\s*=\s*append\((\w+),\s*\w+\.Hits\.Spans\.\.\.\)$`)
+	re := regexp.MustCompile(`^(\w+)\s*=\s*append\((\w+),\s*(?:\w+\.Hits\.Spans|\w+)\.\.\.\)$`)
 	for i, s := range L {
 		fs, ok := s.(*ast.ForStmt)
 		if !ok || fs.Cond != nil || fs.Init != nil || fs.Post != nil {
@@ -237,9 +238,9 @@ func redFold(x *file) string {
 	if loop < 0 {
 		die("ProcessRedTracesIngest: paging loop `for { … }` not found")
 	}
-	// accumulator: `acc = append(acc, <resp>.Hits.Spans...)` at the top level of the loop body
+	// accumulator: `acc = append(acc, <resp>.Hits.Spans...)` / `acc = append(acc, <pageSpans>...)` at the top level of the loop body
 	acc := ""
-	re := regexp.MustCompile(`^(\w+)\s*=\s*append\((\w+),\s*\w+\.Hits\.Spans\.\.\.\)$`)
+	re := regexp.MustCompile(`^(\w+)\s*=\s*append\((\w+),\s*(?:\w+\.Hits\.Spans|\w+)\.\.\.\)$`)
 	for _, s := range L[loop].(*ast.ForStmt).Body.List {
 		if m := re.FindStringSubmatch(strings.TrimSpace(x.text(s))); m != nil && m[1] == m[2] {
 			acc = m[1]
